@@ -983,6 +983,9 @@ func main() {
 	emitTokenFacts(w, cashuP)
 	emitTokenCallers(w, parseDir(filepath.Join(repo, "cmd/nutw")))
 
+	// --- composite literals that build the wallet's requests (agent "privacy", C08) ---
+	emitWalletWireFacts(w, repo, walletP, cashuP)
+
 	w("\nend Gonuts.Gen\n")
 
 	if outPath == "" {
@@ -1617,3 +1620,123 @@ func emitTokenCallers(w func(string, ...any), nutwP *pkg) {
 	}
 }
 
+// ============================================================================================
+// C08 (agent "privacy"): what the wallet puts into its requests.
+// Data only: for every composite literal of a request type (and of cashu.Proof / BlindedMessage /
+// DLEQProof / swapRequestPayload) in package wallet, the enclosing top-level function and the
+// rendered `Field:expr` entries in source order; the json tags of the request structs; the text of
+// NewTokenV3 (the place where DLEQs are stripped for the caller).
+// Gonuts/Tie/WalletWire.lean proves each equal to what Model/WalletWire.lean was written against.
+// ============================================================================================
+
+func emitWalletWireFacts(w func(string, ...any), repo string, walletP, cashuP *pkg) {
+	w("\n/-! ## composite literals building the wallet's requests (C08) -/\n")
+	type lit struct {
+		fn     string
+		fields []string
+	}
+	var names []string
+	for n := range walletP.files {
+		names = append(names, n)
+	}
+	sort.Strings(names)
+	collect := func(typ string) []lit {
+		var out []lit
+		for _, n := range names {
+			for _, d := range walletP.files[n].Decls {
+				fd, ok := d.(*ast.FuncDecl)
+				if !ok || fd.Body == nil {
+					continue
+				}
+				ast.Inspect(fd.Body, func(x ast.Node) bool {
+					cl, ok := x.(*ast.CompositeLit)
+					if !ok || exprString(cl.Type) != typ {
+						return true
+					}
+					l := lit{fn: fd.Name.Name}
+					for _, e := range cl.Elts {
+						l.fields = append(l.fields, exprString(e))
+					}
+					out = append(out, l)
+					return true
+				})
+			}
+		}
+		return out
+	}
+	emit := func(lean, typ string) {
+		w("def %s : List (String × List String) := [", lean)
+		for i, l := range collect(typ) {
+			if i > 0 {
+				w(", ")
+			}
+			w("(%s, %s)", leanStr(l.fn), leanStrList(l.fields))
+		}
+		w("]\n")
+	}
+	emit("wlit_PostSwapRequest", "nut03.PostSwapRequest")
+	emit("wlit_PostMeltBolt11Request", "nut05.PostMeltBolt11Request")
+	emit("wlit_PostMintBolt11Request", "nut04.PostMintBolt11Request")
+	emit("wlit_PostCheckStateRequest", "nut07.PostCheckStateRequest")
+	emit("wlit_PostRestoreRequest", "nut09.PostRestoreRequest")
+	emit("wlit_PostMintQuoteBolt11Request", "nut04.PostMintQuoteBolt11Request")
+	emit("wlit_PostMeltQuoteBolt11Request", "nut05.PostMeltQuoteBolt11Request")
+	emit("wlit_swapRequestPayload", "swapRequestPayload")
+	emit("wlit_Proof", "cashu.Proof")
+	emit("wlit_BlindedMessage", "cashu.BlindedMessage")
+	emit("wlit_DLEQProof", "cashu.DLEQProof")
+
+	emitFields := func(lean string, p *pkg, typ string) {
+		w("def %s : List (String × String × String) := [", lean)
+		for i, r := range structFields(p, typ) {
+			if i > 0 {
+				w(", ")
+			}
+			w("(%s, %s, %s)", leanStr(r[0]), leanStr(r[1]), leanStr(r[2]))
+		}
+		w("]\n")
+	}
+	emitFields("fields_PostSwapRequest", parseDir(filepath.Join(repo, "cashu/nuts/nut03")), "PostSwapRequest")
+	emitFields("fields_PostMintBolt11Request", parseDir(filepath.Join(repo, "cashu/nuts/nut04")), "PostMintBolt11Request")
+	emitFields("fields_PostMintQuoteBolt11Request", parseDir(filepath.Join(repo, "cashu/nuts/nut04")), "PostMintQuoteBolt11Request")
+	emitFields("fields_PostMeltBolt11Request", parseDir(filepath.Join(repo, "cashu/nuts/nut05")), "PostMeltBolt11Request")
+	emitFields("fields_PostMeltQuoteBolt11Request", parseDir(filepath.Join(repo, "cashu/nuts/nut05")), "PostMeltQuoteBolt11Request")
+	emitFields("fields_PostCheckStateRequest", parseDir(filepath.Join(repo, "cashu/nuts/nut07")), "PostCheckStateRequest")
+	emitFields("fields_PostRestoreRequest", parseDir(filepath.Join(repo, "cashu/nuts/nut09")), "PostRestoreRequest")
+
+	emitSrc := func(lean string, lines []string) {
+		w("def %s : List String := [\n", lean)
+		for i, l := range lines {
+			sep := ","
+			if i == len(lines)-1 {
+				sep = ""
+			}
+			w("  %s%s\n", leanStr(l), sep)
+		}
+		w("]\n")
+	}
+	// which proofs reach swap() / swapProofs: the arguments of their callers
+	emitCalls := func(lean, callee string, fns []string) {
+		w("def %s : List (String × List String) := [", lean)
+		first := true
+		for _, fn := range fns {
+			fd := findFunc(walletP, "Wallet", fn)
+			for _, args := range callArgs(fd, callee) {
+				if !first {
+					w(", ")
+				}
+				first = false
+				w("(%s, %s)", leanStr(fn), leanStrList(args))
+			}
+		}
+		w("]\n")
+	}
+	emitCalls("wcall_createSwapRequest", "w.createSwapRequest", []string{"Receive", "ReceiveHTLC", "swapToTrusted", "ReclaimUnspentProofs"})
+	emitCalls("wcall_swapProofs", "w.swapProofs", []string{"MintSwap", "swapToTrusted"})
+	emitCalls("wcall_swap", "swap", []string{"Receive", "ReceiveHTLC", "swapToTrusted", "ReclaimUnspentProofs"})
+	emitCalls("wcall_getProofsForAmount", "w.getProofsForAmount", []string{"Send", "Melt", "MintSwap"})
+	emitSrc("src_NewTokenV3", srcLines(findFunc(cashuP, "", "NewTokenV3")))
+	emitSrc("src_NewBlindedMessage", srcLines(findFunc(cashuP, "", "NewBlindedMessage")))
+	// helper of the F5 fix (absent before it): DLEQ-less copies of request inputs
+	emitSrc("src_inputsWithoutDLEQ", srcLines(findFunc(walletP, "", "inputsWithoutDLEQ")))
+}
